@@ -343,19 +343,21 @@ def gaussHermite (n : Nat) (t l : α) : α :=
 def ggOrder (d k m : Nat) : Nat :=
   if k = 0 then 0 else if k ≤ d then (if k - 1 = m then 1 else 0) else (if k - d - 1 = m then 2 else 0)
 
+/-- `(−1)^n · x` -/
+def sgn (n : Nat) (x : α) : α := if n % 2 = 1 then -x else x
+
+/-- product over the input dimensions (index `m`, starting at the given offset) of the signed Hermite factors;
+`oa m` / `ob m` = derivative order applied to dimension `m` in the first / second argument -/
+def ggProd (oa ob : Nat → Nat) : List α → List α → List α → Nat → α
+  | lm :: ls, x :: a, y :: b, m =>
+      sgn (ob m) (gaussHermite (oa m + ob m) (x - y) lm) * ggProd oa ob ls a b (m + 1)
+  | _, _, _, _ => lit 1
+
 /-- RBFKernelGradGrad: components `0` value, `1..d` first, `d+1..2d` second (non-mixed) derivatives.
 The RBF kernel is the product over dimensions of `g(a_m − b_m)`; differentiating in `a_m` is `d/dt`, in
 `b_m` is `−d/dt`. -/
 def rbfGradGradEntry (ls a b : List α) (k l : Nat) : α :=
-  let d := a.length
-  let rec go : List α → List α → List α → Nat → α
-    | lm :: ls, x :: a, y :: b, m =>
-        let na := ggOrder d k m
-        let nb := ggOrder d l m
-        (if nb % 2 = 1 then -(gaussHermite (na + nb) (x - y) lm) else gaussHermite (na + nb) (x - y) lm)
-          * go ls a b (m + 1)
-    | _, _, _, _ => lit 1
-  go ls a b 0 * rbfSpec ls a b
+  ggProd (ggOrder a.length k) (ggOrder a.length l) ls a b 0 * rbfSpec ls a b
 
 /-- full matrix of a kernel with `m` components per point in the interleaved layout -/
 def gradMatrix (entry : List α → List α → Nat → Nat → α) (m : Nat) (X1 X2 : List (List α)) : List (List α) :=
